@@ -1,6 +1,6 @@
 (* C05: the counters follow the live objects over every history. *)
 From Coq Require Import List ZArith Bool Lia.
-From OV.C03 Require Import Statements Arith Inv Proofs.
+From OV.C03 Require Import Spec Statements Arith Inv Proofs.
 From OV.C05 Require Import Model Spec.
 Import ListNotations.
 Local Open Scope Z_scope.
@@ -14,12 +14,16 @@ Definition dmax_ok (d : dev) : Prop := d_max d = running_max (d_hist d) /\ d_all
 
 Lemma dmax_alloc : forall d n, dmax_ok d -> dmax_ok (dev_alloc d n).
 Proof.
-  intros d n [A B]. unfold dmax_ok, dev_alloc. cbn. rewrite A. split; lia.
+  intros d n [A B]. unfold dmax_ok, dev_alloc. cbn [d_max d_alloc d_hist].
+  change (running_max ((d_alloc d + n) :: d_hist d)) with (Z.max (d_alloc d + n) (running_max (d_hist d))).
+  rewrite A. split; lia.
 Qed.
 
 Lemma dmax_free : forall d n, dmax_ok d -> 0 <= n -> dmax_ok (dev_free d n).
 Proof.
-  intros d n [A B] Hn. unfold dmax_ok, dev_free. cbn. rewrite <- A. split; lia.
+  intros d n [A B] Hn. unfold dmax_ok, dev_free. cbn [d_max d_alloc d_hist].
+  change (running_max ((d_alloc d - n) :: d_hist d)) with (Z.max (d_alloc d - n) (running_max (d_hist d))).
+  rewrite <- A. split; lia.
 Qed.
 
 (* ------------------------------------------------------------------ pool operations and the counters:
@@ -49,7 +53,7 @@ Lemma set_alignment_tracks : forall V d p na d' p',
 Proof.
   intros V d p na d' p' H. unfold set_alignment in H.
   destruct (na =? 0); [discriminate|]. destruct (p_align p =? na); [inversion H; subst; apply tracks_refl|].
-  destruct (p_res p) as [|m tl]; [inversion H; subst; apply tracks_refl|].
+  destruct (p_res p) as [|m tl]; [inversion H; subst; split; [cbn; lia|tauto]|].
   destruct (pack r_off r_end (ru na) (m :: tl)) as [[l' cs] nr]. inversion H; subst; clear H.
   split; [cbn; lia|]. intros M S. apply dmax_free; [apply dmax_alloc; assumption|assumption].
 Qed.
@@ -57,56 +61,63 @@ Qed.
 Lemma add_ref_size : forall V p x, p_size (add_ref V p x) = p_size p.
 Proof. reflexivity. Qed.
 
+Lemma tracks_add_ref : forall V d p d' p' x, tracks d p d' p' -> tracks d p d' (add_ref V p' x).
+Proof. intros. exact H. Qed.
+
 Lemma reserve_tracks : forall V d p id bytes d' p',
   reserve V d p id bytes = Some (d', p') -> tracks d p d' p'.
 Proof.
   intros V d p id bytes d' p' H. unfold reserve in H.
   destruct (_ >? p_size p).
   - destruct (resize V false d p _) as [[d1 p1]|] eqn:Er; [|discriminate]. inversion H; subst.
-    rewrite <- (add_ref_size V p1) in *. pose proof (resize_tracks _ _ _ _ _ _ _ Er) as T.
-    unfold tracks in *. rewrite add_ref_size. exact T.
-  - destruct (p_res p); [inversion H; subst; unfold tracks; rewrite add_ref_size; apply tracks_refl|].
-    destruct (_ <=? p_size p); [inversion H; subst; unfold tracks; rewrite add_ref_size; apply tracks_refl|].
+    apply tracks_add_ref. eapply resize_tracks; eassumption.
+  - destruct (p_res p); [inversion H; subst; apply tracks_add_ref, tracks_refl|].
+    destruct (_ <=? p_size p); [inversion H; subst; apply tracks_add_ref, tracks_refl|].
     destruct (resize V (v_force V) d p _) as [[d1 p1]|] eqn:Er; [|discriminate]. inversion H; subst.
-    pose proof (resize_tracks _ _ _ _ _ _ _ Er) as T. unfold tracks in *. rewrite add_ref_size. exact T.
+    apply tracks_add_ref. eapply resize_tracks; eassumption.
 Qed.
+
+Ltac tr := first [apply tracks_refl | (split; [reflexivity | tauto])].
 
 Lemma step_tracks : forall V d p o,
   tracks d p (fst (fst (step V (d, p) o))) (snd (fst (step V (d, p) o))).
 Proof.
   intros V d p o. destruct o as [id n|id parent off cnt|id|id off data|b| |na]; cbn [step].
-  - destruct (find_res id (p_res p)); [apply tracks_refl|].
-    destruct (n =? 0); [apply tracks_refl|]. destruct (n <? 0); [apply tracks_refl|].
-    destruct (reserve V d p id n) as [[d1 p1]|] eqn:E; cbn; [eapply reserve_tracks; eassumption|apply tracks_refl].
-  - destruct (find_res id (p_res p)); [apply tracks_refl|].
-    destruct (find_res parent (p_res p)); [|apply tracks_refl].
-    destruct (_ <? 0); [apply tracks_refl|]. destruct (negb _); [apply tracks_refl|].
-    destruct (_ <? 0); [apply tracks_refl|]. cbn. apply tracks_refl.
-  - destruct (find_res id (p_res p)); cbn; apply tracks_refl.
-  - destruct (find_res id (p_res p)); [|apply tracks_refl].
-    destruct (off <? 0); [apply tracks_refl|]. destruct (negb _); cbn; apply tracks_refl.
-  - destruct (resize V false d p b) as [[d1 p1]|] eqn:E; cbn; [eapply resize_tracks; eassumption|apply tracks_refl].
-  - destruct (resize V false d p (p_reserved p)) as [[d1 p1]|] eqn:E; cbn; [eapply resize_tracks; eassumption|apply tracks_refl].
-  - destruct (set_alignment V d p na) as [[d1 p1]|] eqn:E; cbn; [eapply set_alignment_tracks; eassumption|apply tracks_refl].
+  - destruct (find_res id (p_res p)); [tr|].
+    destruct (n =? 0); [tr|]. destruct (n <? 0); [tr|].
+    destruct (reserve V d p id n) as [[d1 p1]|] eqn:E; cbn; [eapply reserve_tracks; eassumption|tr].
+  - destruct (find_res id (p_res p)); [tr|].
+    destruct (find_res parent (p_res p)); [|tr].
+    destruct (_ <? 0); [tr|]. destruct (negb _); [tr|].
+    destruct (_ <? 0); [tr|]. cbn. tr.
+  - destruct (find_res id (p_res p)); cbn; tr.
+  - destruct (find_res id (p_res p)); [|tr].
+    destruct (off <? 0); [tr|]. destruct (negb _); cbn; tr.
+  - destruct (resize V false d p b) as [[d1 p1]|] eqn:E; cbn; [eapply resize_tracks; eassumption|tr].
+  - destruct (resize V false d p (p_reserved p)) as [[d1 p1]|] eqn:E; cbn; [eapply resize_tracks; eassumption|tr].
+  - destruct (set_alignment V d p na) as [[d1 p1]|] eqn:E; cbn; [eapply set_alignment_tracks; eassumption|tr].
 Qed.
 
 (* ------------------------------------------------------------------ sums over the object table *)
+Lemma expected_cons : forall k o l, expected_allocated ((k, o) :: l) = obj_bytes o + expected_allocated l.
+Proof. reflexivity. Qed.
+
 Lemma sum_remove : forall id l o, lookup id l = Some o ->
   expected_allocated (remove_obj id l) = expected_allocated l - obj_bytes o.
 Proof.
-  induction l as [|[k o0] tl IH]; intros o H; cbn in *; [discriminate|].
+  induction l as [|[k o0] tl IH]; intros o H; cbn [lookup remove_obj] in *; [discriminate|].
   destruct (k =? id).
-  - inversion H; subst. lia.
-  - cbn. rewrite (IH o H). lia.
+  - inversion H; subst. rewrite expected_cons. lia.
+  - rewrite !expected_cons. rewrite (IH o H). lia.
 Qed.
 
 Lemma sum_replace : forall id o' l o, lookup id l = Some o ->
   expected_allocated (replace_obj id o' l) = expected_allocated l - obj_bytes o + obj_bytes o'.
 Proof.
-  induction l as [|[k o0] tl IH]; intros o H; cbn in *; [discriminate|].
+  induction l as [|[k o0] tl IH]; intros o H; cbn [lookup replace_obj] in *; [discriminate|].
   destruct (k =? id).
-  - inversion H; subst. cbn. lia.
-  - cbn. rewrite (IH o H). lia.
+  - inversion H; subst. rewrite !expected_cons. lia.
+  - rewrite !expected_cons. rewrite (IH o H). lia.
 Qed.
 
 Lemma lookup_in : forall id l o, lookup id l = Some o -> In (id, o) l.
@@ -155,7 +166,7 @@ Lemma malloc_inv : forall s id bytes src use_host,
 Proof.
   intros s id bytes src use_host I Hb. unfold do_malloc. rewrite andb_false_r.
   constructor; cbn [ds_dev ds_objs].
-  - cbn. rewrite (di_sum _ I). lia.
+  - rewrite expected_cons. cbn [dev_alloc d_alloc obj_bytes]. rewrite (di_sum _ I). lia.
   - apply dmax_alloc. apply (di_max _ I).
   - intros k o [E|Hin]; [inversion E; subst; cbn; split; [lia|split; discriminate]|apply (di_objs _ I k o Hin)].
 Qed.
@@ -173,21 +184,21 @@ Proof.
   - destruct (lookup id (ds_objs s)); [assumption|].
     destruct (Z.ltb_spec bytes 0); [assumption|]. cbn [fst].
     constructor; cbn [ds_dev ds_objs].
-    + cbn. apply (di_sum _ I).
+    + rewrite expected_cons. cbn [obj_bytes]. rewrite (di_sum _ I). lia.
     + apply (di_max _ I).
     + intros k o [E|Hin]; [inversion E; subst; cbn; split; [lia|split; reflexivity]|apply (di_objs _ I k o Hin)].
   - destruct (lookup id (ds_objs s)) as [[bytes how w|p]|] eqn:El; try assumption. cbn [fst].
     pose proof (di_objs _ I _ _ (lookup_in _ _ _ El)) as [Hb Hw].
     constructor; cbn [ds_dev ds_objs].
     + rewrite (sum_remove _ _ _ El). cbn [obj_bytes].
-      destruct w; destruct how; cbn; try (rewrite (di_sum _ I); lia).
+      destruct w; destruct how; cbn [dev_free d_alloc]; try (rewrite (di_sum _ I); lia).
       * destruct Hw as [Hw _]. specialize (Hw eq_refl). discriminate.
       * destruct Hw as [_ Hw]. specialize (Hw eq_refl). discriminate.
     + destruct w; [apply (di_max _ I)|apply dmax_free; [apply (di_max _ I)|assumption]].
     + intros k o Hin. apply (di_objs _ I k o). eapply in_remove_obj; eassumption.
   - destruct (lookup id (ds_objs s)); [assumption|]. cbn [fst].
     constructor; cbn [ds_dev ds_objs].
-    + cbn. rewrite (di_sum _ I). lia.
+    + rewrite expected_cons. cbn [obj_bytes pool0 p_size]. rewrite (di_sum _ I). lia.
     + apply (di_max _ I).
     + intros k o [E|Hin]; [inversion E; subst; apply pool0_good|apply (di_objs _ I k o Hin)].
   - destruct (lookup id (ds_objs s)) as [[bytes how w|p]|] eqn:El; try assumption.
@@ -204,7 +215,7 @@ Proof.
   - destruct (lookup id (ds_objs s)) as [[bytes how w|p]|] eqn:El; try assumption. cbn [fst].
     pose proof (di_objs _ I _ _ (lookup_in _ _ _ El)) as (sp & Ip & Hs).
     constructor; cbn [ds_dev ds_objs].
-    + rewrite (sum_remove _ _ _ El). cbn. rewrite (di_sum _ I). lia.
+    + rewrite (sum_remove _ _ _ El). unfold pool_destroy. cbn [obj_bytes dev_free d_alloc]. rewrite (di_sum _ I). lia.
     + unfold pool_destroy. apply dmax_free; [apply (di_max _ I)|assumption].
     + intros k o Hin. apply (di_objs _ I k o). eapply in_remove_obj; eassumption.
 Qed.
